@@ -172,3 +172,10 @@ def written_header_locates(vc):
     centre = hd['OBSFREQ'] - hd['OBSBW'] / 2 + (c + Fraction(1, 2)) * hd['CHAN_BW']
     vc.ensure('C07/written-header/post/channel-c-centred-at-fch1+(start_chan+c)*chan_bw', eq(centre * 10 ** 6, fch1 + (P['sc'] + c) * cbw))
     vc.ensure('C07/written-header/post/CHAN_BW-signed-by-orientation-TBIN-OBSNCHAN', And(eq(hd['CHAN_BW'] * 10 ** 6, cbw), eq(hd['TBIN'], P['nb'] / P['sr']), eq(hd['OBSNCHAN'], P['nc'])))
+
+
+# Frequency registration rests on time registration of the antenna stream: sample k of a request is evaluated at t_start + k/sample_rate and the
+# clock advances by exactly the samples delivered, so that consecutive requests (sub-blocks) form one contiguous time axis.  C10's
+# single-request contract (time grid, clock advance, source sum), discharged again here.
+from . import c10 as _C10
+contract('C07', 'stream_time_axis_is_contiguous_across_requests', functions=['setigen.voltage.data_stream:DataStream.get_samples', 'setigen.voltage.data_stream:DataStream._update_t'])(_C10.single_request)
